@@ -87,6 +87,11 @@ func (r *ContentReader) parseComments() {
 	var found bool
 	var skip skipMode
 	for _, comment := range lineComments {
+		if r.isExcludedComment(comment) {
+			// This line is excluded from parsing, so comments on it must have no effect.
+			lineComments = nil
+			break
+		}
 		// nolint:exhaustive
 		switch comment.Type {
 		case comments.IgnoreFileType:
@@ -152,6 +157,11 @@ func (r *ContentReader) parseComments() {
 			r.skipNext = true
 			r.autoReset = true
 		case skipBegin:
+			if r.inBegin {
+				// Nested ignore/begin is still inside the ignored block, only keep the comment itself.
+				r.inBegin = false
+				r.emptyCurrentLine(lineComments)
+			}
 			r.skipNext = true
 			r.autoReset = false
 			r.inBegin = true
@@ -166,6 +176,15 @@ func (r *ContentReader) parseComments() {
 			r.skipNext = false
 		}
 	}
+}
+
+// isExcludedComment returns true if the comment is on a line that follows ignore/next-line
+// or is inside ignore/begin & ignore/end block.
+func (r *ContentReader) isExcludedComment(c comments.Comment) bool {
+	if r.inBegin {
+		return c.Type != comments.IgnoreBeginType && c.Type != comments.IgnoreEndType
+	}
+	return r.skipNext
 }
 
 func (r *ContentReader) emptyCurrentLine(comments []comments.Comment) {
